@@ -2,6 +2,7 @@
 Driver/Verbs — one protocol verb per model entry point.
 -/
 import BiscuitModel.Driver.Codec
+import BiscuitModel.Model.Odometer
 
 namespace Biscuit.Driver
 open Biscuit
@@ -278,6 +279,19 @@ def needOf (verb : String) (sx : Sexp) : Option String :=
         | .ok root => some ("(oracle-queries " ++ spaced (chainQueries root p.envelope) ++ ")")
   | _, _ => none
 
+/-- ODO: (case (np N) (nf M) (table b…)) — the literal odometer of `combine`, row-major
+table `m i j = table[i*nf + j]`; prints the emitted index tuples in order. -/
+def verbOdo (fields : List Sexp) : String :=
+  let r : Option String := do
+    let np ← match ← field "np" fields with | [.atom a] => a.toNat? | _ => none
+    let nf ← match ← field "nf" fields with | [.atom a] => a.toNat? | _ => none
+    let tbl := ((← field "table" fields).map fun x => match x with | .atom "1" => true | _ => false).toArray
+    if tbl.size ≠ np * nf then none
+    let m : Nat → Nat → Bool := fun i j => i < np && j < nf && tbl.getD (i * nf + j) false
+    let out := Odometer.combos m np nf
+    pure (" ".intercalate ("ok" :: out.map fun t => "(" ++ " ".intercalate (t.map toString) ++ ")"))
+  r.getD "bad-case"
+
 def runVerb (verb : String) (sx : Sexp) : String :=
   match sx with
   | .list (.atom "case" :: fields) =>
@@ -293,6 +307,7 @@ def runVerb (verb : String) (sx : Sexp) : String :=
     | "PARSE" => verbParse fields
     | "PRINT" => verbPrint fields
     | "SNAP" => verbSnap fields
+    | "ODO" => verbOdo fields
     | _ => "bad-verb"
   | _ => "bad-case"
 
